@@ -18,7 +18,7 @@ definition that is reasoned about entrywise; `Mat.freeze` tabulates a matrix int
   truncOneLevel   — `HSpace.truncate_one_level(k, num_rows, inverse)` (1148-1173)
   thbToHb/hbToThb — `thb_to_hb`, `hb_to_thb` (1175-1199)
   virtualProlongators — `virtual_hierarchy_prolongators(truncate)` (1294-1324)
-  prolongateTo    — `HSpace.prolongate_to(fine)` (976-1057), loop bounds as coded
+  prolongateTo    — `HSpace.prolongate_to(fine)` (976-1058), loop bounds as coded (repaired; old bounds behind a flag)
   levelwiseCoeffs — `coeffs_to_levelwise_funcs` (1326-1346): `split_coeffs` + `_reindex`
   boundaryMap     — index array returned by `HSpace.boundary(bdspec)` (540-580)
 -/
@@ -268,17 +268,19 @@ def prolInner (F : HSp α) (P : Nat → Mat α) (fCan : Nat → List Nat) (lv bo
         else prolInner F P fCan lv bound repl cCan fuel (l + 1) ⟨out', Pdeact.freeze, fd⟩
       else st
 
-/-- `self.prolongate_to(fine)` with `disparity = max(self.disparity, fine.disparity)`
-(`none` = `np.inf`); `C`/`F` are the coarse/fine spaces (`F.T` the fine space's TP
-prolongations).  `fixedBound = true` replaces the loop bounds `min(f_numlevels, · + disparity + 1)`
-by `f_numlevels` (candidate repair of D13). -/
-def prolongateTo (C F : HSp α) (disparity : Option Nat) (fixedBound : Bool := false) : Mat α :=
+/-- `self.prolongate_to(fine)`; `C`/`F` are the coarse/fine spaces (`F.T` the fine space's TP
+prolongations).  Both loops run up to `f_numlevels` (the inner one ends early through the `break`
+on an empty `fd_l`), as in the code since the repair of D13 (commit 6ce171d).
+`asCoded_D13 = true` reproduces the bounds `min(f_numlevels, · + disparity + 1)` of the earlier
+source with `disparity = max(self.disparity, fine.disparity)` (`none` = `np.inf`); it is used only by
+the negation witness `Props.C05.prolongate_to_finite_disparity_wrong`. -/
+def prolongateTo (C F : HSp α) (disparity : Option Nat := none) (asCoded_D13 : Bool := false) : Mat α :=
   let Lc := C.numlevels
   let Lf := F.numlevels
   let bound (x : Nat) : Nat :=
-    if fixedBound then Lf else match disparity with
+    if asCoded_D13 then (match disparity with
       | none => Lf
-      | some d => min Lf (x + d + 1)
+      | some d => min Lf (x + d + 1)) else Lf
   let offC (lv : Nat) : Nat := if lv = 0 then 0 else C.nt (lv - 1)
   let offF (lv : Nat) : Nat := if lv = 0 then 0 else F.nt (lv - 1)
   let replaced (lv : Nat) : List Nat := ldiff (C.ia lv) (F.ia lv)
